@@ -113,7 +113,7 @@ func (p *gcpPicker) Pick(info balancer.PickInfo) (balancer.PickResult, error) {
 			bindKeys, err := getAffinityKeysFromMessage(locator, gcpCtx.replyMsg)
 			if err == nil {
 				for _, bk := range bindKeys {
-					p.gb.bindSubConn(bk, scRef.getSubConn())
+					p.gb.bindSubConnRef(bk, scRef)
 				}
 			}
 		case grpc_gcp.AffinityConfig_UNBIND:
